@@ -631,7 +631,8 @@ impl Source for MemSource {
     }
 
     fn len_hint(&self) -> Option<usize> {
-        Some(self.len())
+        // what is left to read: part of the signal may have been consumed already
+        Some(self.len().saturating_sub(self.read_head))
     }
 }
 
